@@ -491,6 +491,24 @@ def locate(fn, loc):
         if len(hits) <= loc[2]:
             raise Fail("%s: no slice #%d of %s" % (fn.name, loc[2], loc[1]), fn)
         return hits[loc[2]].slice.upper
+    if kind == "augassign_expr":
+        # ("augassign_expr", target, nth): `target op= value` as the expression `target op value`
+        hits = [n for n in ast.walk(fn) if isinstance(n, ast.AugAssign) and ast.unparse(n.target) == loc[1]]
+        if len(hits) <= loc[2]:
+            raise Fail("%s: no augmented assignment to %s" % (fn.name, loc[1]), fn)
+        n = hits[loc[2]]
+        return ast.copy_location(ast.BinOp(left=n.target, op=n.op, right=n.value), n)
+    if kind == "has_call":
+        # ("has_call", callee_suffix, min_count): does the function call `...callee_suffix(...)` at least min_count times?
+        hits = [n for n in ast.walk(fn) if isinstance(n, ast.Call) and ast.unparse(n.func).endswith(loc[1])]
+        return ast.copy_location(ast.Constant(len(hits) >= loc[2]), fn)
+    if kind == "range_arg":
+        # ("range_arg", nth): the single argument of the nth `for ... in range(<expr>)`
+        hits = [n for n in ast.walk(fn) if isinstance(n, ast.For) and isinstance(n.iter, ast.Call)
+                and ast.unparse(n.iter.func) == "range" and len(n.iter.args) == 1]
+        if len(hits) <= loc[1]:
+            raise Fail("%s: no `for ... in range(x)` loop" % fn.name, fn)
+        return hits[loc[1]].iter.args[0]
     raise Fail("bad locator %r" % (loc,))
 
 
@@ -714,14 +732,20 @@ def gen(repo, outdir, selftest_out=None):
                 # opts["absent"]: the test may legitimately not exist in the tree (a check that a pending
                 # `fix:` adds); the leaf then is the given constant -- "the check never fires" -- and
                 # the GenFacts lemma about it fails, so the property's proof stage still reports it.
-                if "absent" not in opts or rty != "bool":
+                if "absent" not in opts:
                     raise
-                nty = "Nat" if opts.get("nat") else "Int"
-                sig = " ".join("(%s : %s)" % (("_" + p[1]), nty if p[2] == "num" else "Bool") for p in params)
-                by_mod.setdefault(mod, []).append(
-                    "/-- `%s` (%s): no test matching %r in the working tree -/\ndef %s %s : Bool :=\n  %s\n"
-                    % (qual, rel, loc[1:-1], lname, sig, opts["absent"]))
-                continue
+                if isinstance(opts["absent"], bool):
+                    # the located test does not exist in this tree: the code behaves as `absent` says
+                    e = ast.copy_location(ast.Constant(opts["absent"]), fn)
+                else:
+                    if rty != "bool":
+                        raise
+                    nty = "Nat" if opts.get("nat") else "Int"
+                    sig = " ".join("(%s : %s)" % (("_" + p[1]), nty if p[2] == "num" else "Bool") for p in params)
+                    by_mod.setdefault(mod, []).append(
+                        "/-- `%s` (%s): no test matching %r in the working tree -/\ndef %s %s : Bool :=\n  %s\n"
+                        % (qual, rel, loc[1:-1], lname, sig, opts["absent"]))
+                    continue
             tr = Tr(fenv, {p[0]: (p[1], p[2]) for p in params}, nat=opts.get("nat", False), file=rel)
             if rty == "bool":
                 body = tr.boolean(e)
